@@ -58,7 +58,7 @@ func c19(c *Ctx) {
 		var out []ssa.Value
 		for _, b := range f.Blocks {
 			for _, in := range b.Instrs {
-				if ret, ok := in.(*ssa.Return); ok && len(ret.Results) > 0 {
+				if ret, ok := an.AsReturn(in); ok && len(ret.Results) > 0 {
 					out = append(out, an.RetVal(ret, 0))
 				}
 			}
